@@ -524,12 +524,55 @@ func (g *Grammar) RefModelled() bool {
 				})
 				return
 			}
-			if e.Op > OpNT && e.Op != OpLTrim && e.Op != OpEnd && e.Op != OpKw && e.Op != OpMark && e.Op != OpStr {
+			if e.Op > OpNT && e.Op != OpLTrim && e.Op != OpEnd && e.Op != OpKw && e.Op != OpMark && e.Op != OpStr && e.Op != OpSuppress {
 				ok = false
 			}
 		})
 	}
 	return ok
+}
+
+// HasOp reports whether the operator occurs anywhere in the grammar
+func (g *Grammar) HasOp(op Op) bool {
+	found := false
+	for _, b := range g.NTs {
+		Walk(b, func(e *Expr) {
+			if e.Op == op {
+				found = true
+			}
+		})
+	}
+	return found
+}
+
+// SuppressSome wraps sub-expressions in combinator.SuppressError: every nonterminal reference with probability 1/2 and
+// every other proper sub-expression with probability 1/8. SuppressError only drops the error of its operand - results,
+// curtailing parsers and the left-recursion context pass through -, so the meaning of the grammar (which parses exist,
+// their trees, the work needed) stays what it was; a grammar whose LEFT-RECURSIVE references run through the wrapper is
+// the case no hand-written grammar of the repository contains.
+func (g *Grammar) SuppressSome(intn func(int) int) int {
+	n := 0
+	var visit func(e *Expr)
+	visit = func(e *Expr) {
+		for i, k := range e.Kids {
+			visit(k)
+			if k.Op == OpSuppress {
+				continue
+			}
+			if (k.Op == OpNT && intn(2) == 0) || (k.Op != OpNT && intn(8) == 0) {
+				e.Kids[i] = g.Mk(OpSuppress, k)
+				n++
+			}
+		}
+	}
+	for i, b := range g.NTs {
+		visit(b)
+		if b.Op == OpNT && intn(2) == 0 {
+			g.NTs[i] = g.Mk(OpSuppress, b)
+			n++
+		}
+	}
+	return n
 }
 
 // HasExtendedOps: the grammar uses operators the reference semantics does not model (trims, Single, ...)
